@@ -40,6 +40,43 @@ CHECKS = {
              '(tagging.py not excluded) is listed in known_findings.json.',
         technique='Lean 4 proof (invariants by induction over edit histories) + differential correspondence + oracle',
         ref='§4 C16'),
+    'C02': dict(
+        text='Lean heap model (topologically ordered object graph, identity = index) of fdl.build as a memoized '
+             'post-order traversal with on-stack cycle table and invocation log, composed with the ArgStore '
+             'binding model for every Config node; correspondence on random DAGs (invocation order by callable, '
+             'identity-aware canonical form of the built graph) and an independent reference build as oracle '
+             '(once per instance, dependencies first, same/distinct results, separate builds disjoint).',
+        note=TB + 'Theorems over the build model are still being added (see DESIGN.md status table); the '
+             'per-run guarantee rests on correspondence + oracle.',
+        technique='Lean 4 model + differential correspondence + reference-build oracle',
+        ref='§4 C02'),
+    'C04': dict(
+        text='Lean model of the argument structure of a built Partial (build-time leaves and containers with '
+             'identity, built ArgFactories), of call-time evaluation with an allocation counter, and of '
+             'functools.partial keyword override; correspondence on random Partial/ArgFactory/Config nestings '
+             'x call sequences, and a hand-written functools.partial reference as oracle comparing the joint '
+             'canonical form (values + identities across calls).',
+        note=TB + 'Sharing of one ArgFactory instance at several positions is not generated.',
+        technique='Lean 4 model + differential correspondence + functools.partial reference oracle',
+        ref='§4 C04'),
+    'C05': dict(
+        text='Lean model of build with a failing node (error carries the log of completed invocations and the '
+             'path), of the nested-build guard as a state machine and of exception decoration over an abstract '
+             'class hierarchy, with theorems for instance/prefix in every branch, guard reset, nested rejection '
+             'and arbitrary sequences of builds; correspondence with every invocation index as crash point x '
+             'exception shapes, formatting failures, nested-build scripts.',
+        note=TB + "Python's class machinery (proxy subclass creation) is abstracted as Errors.decorate.",
+        technique='Lean 4 proof (decision logic + state machine) + differential correspondence + oracle',
+        ref='§4 C05'),
+    'C08': dict(
+        text='Lean heap model of daglish traversals (follow_path, iterate in three modes, collect_paths_by_id, '
+             'State.get_all_paths); correspondence of the (value, path) streams on random structures; oracle: '
+             'soundness of every reported pair, completeness / exact-once against an independent walk, exactness '
+             'of all-paths queries, identity rebuild (new and legacy API), caller-supplied registries, cycles.',
+        note=TB + 'In the default memoized mode atoms are memoized by CPython identity; only memoizable objects '
+             'are compared there. Theorems over the traversal model are still being added.',
+        technique='Lean 4 model + differential correspondence + independent-walk oracle',
+        ref='§4 C08'),
 }
 
 NOT_YET = {}
